@@ -17,6 +17,11 @@ import (
 
 var runWallLimit = 90 * time.Second
 
+// stopAtFirst (--stop-at-first, used by the seeded-defect sweeps): no new run is
+// started once a run has shown a violation; stopNow is set by the sink, which
+// runMany calls under its lock.
+var stopAtFirst, stopNow bool
+
 // cpuOf: user + system time a process has used so far (/proc/<pid>/stat, fields
 // 14 and 15 in clock ticks of 10 ms).
 func cpuOf(pid int) time.Duration {
@@ -395,7 +400,7 @@ func (b *build) runMany(dir string, n, par int, gen func(i int) *scn.Scenario, d
 				mu.Lock()
 				i := next
 				next++
-				if i >= n || (!deadline.IsZero() && time.Now().After(deadline)) {
+				if i >= n || stopNow || (!deadline.IsZero() && time.Now().After(deadline)) {
 					mu.Unlock()
 					return
 				}
